@@ -53,26 +53,52 @@ Lemma set_items_same d : set_items d (d_items d) = d.
 Proof. destruct d; reflexivity. Qed.
 
 (* ------------------------------------------------------------------ path strings *)
-Lemma split_dots_nodot s : no_dot s = true -> split_dots s = [s].
+Definition lit (k : bytes) : pcomp := {| pc_part := k; pc_wild := false |}.
+
+(* a literal first component: no backslash, no dot, no wildcard *)
+Definition lit_char (c : N) : bool := negb (N.eqb c 92) && negb (N.eqb c DOT) && negb (is_wild_char c).
+Definition lit_comp (s : bytes) : bool := forallb lit_char s.
+
+Lemma safe_char_lit c : safe_char c = true -> lit_char c = true.
 Proof.
-  unfold no_dot. induction s as [|c s IH]; [reflexivity|]. cbn [existsb split_dots].
-  rewrite negb_true_iff, orb_false_iff. intros [H1 H2].
-  rewrite N.eqb_sym in H1. rewrite H1. rewrite IH; [reflexivity|]. rewrite negb_true_iff. exact H2.
+  unfold lit_char, is_wild_char. intros H.
+  destruct (N.eqb_spec c 92) as [->|]; [vm_compute in H; discriminate|].
+  destruct (N.eqb_spec c DOT) as [->|]; [vm_compute in H; discriminate|].
+  destruct (N.eqb_spec c 42) as [->|]; [vm_compute in H; discriminate|].
+  destruct (N.eqb_spec c 63) as [->|]; [vm_compute in H; discriminate|].
+  reflexivity.
 Qed.
 
-Lemma split_dots_app a b : no_dot a = true -> split_dots (a ++ DOT :: b) = a :: split_dots b.
+Lemma parse_path_lit_char c r : lit_char c = true -> parse_path (c :: r) = push_char c false (parse_path r).
 Proof.
-  unfold no_dot. induction a as [|c a IH]; cbn [existsb split_dots app].
-  - intros _. rewrite N.eqb_refl. reflexivity.
-  - rewrite negb_true_iff, orb_false_iff. intros [H1 H2].
-    rewrite N.eqb_sym in H1. rewrite H1. rewrite IH; [reflexivity|]. rewrite negb_true_iff. exact H2.
+  unfold lit_char. intros H. apply andb_true_iff in H as [H H3]. apply andb_true_iff in H as [H1 H2].
+  apply negb_true_iff in H1, H2, H3. cbn [parse_path]. rewrite H1, H2, H3. reflexivity.
 Qed.
 
-Lemma split_dep_path sec k : no_dot sec = true -> no_dot k = true -> split_dots (dep_path sec k) = [sec; k].
-Proof. intros H1 H2. unfold dep_path. rewrite split_dots_app, split_dots_nodot; auto. Qed.
+(* the escaped name is one literal component, whatever the name *)
+Lemma parse_path_escape k : parse_path (escape k) = [lit k].
+Proof.
+  induction k as [|c k IH]; [reflexivity|].
+  unfold escape. cbn [flat_map]. fold (escape k).
+  destruct (safe_char c) eqn:E.
+  - cbn [app]. rewrite (parse_path_lit_char c _ (safe_char_lit c E)), IH. reflexivity.
+  - cbn [app parse_path]. rewrite N.eqb_refl. rewrite IH. reflexivity.
+Qed.
 
-Lemma comp_match_plain c key : has_wild c = false -> comp_match c key = beq c key.
-Proof. unfold comp_match. intros ->. reflexivity. Qed.
+Lemma parse_path_lit_app sec rest :
+  lit_comp sec = true -> parse_path (sec ++ DOT :: rest) = lit sec :: parse_path rest.
+Proof.
+  unfold lit_comp. induction sec as [|c sec IH]; cbn [forallb app].
+  - intros _. cbn [parse_path]. replace (N.eqb DOT 92) with false by reflexivity. rewrite N.eqb_refl. reflexivity.
+  - intros H. apply andb_true_iff in H as [H1 H2].
+    rewrite (parse_path_lit_char c _ H1), (IH H2). reflexivity.
+Qed.
+
+Lemma parse_dep_path sec k : lit_comp sec = true -> parse_path (dep_path sec k) = [lit sec; lit k].
+Proof. intros H. unfold dep_path. rewrite (parse_path_lit_app sec _ H), parse_path_escape. reflexivity. Qed.
+
+Lemma comp_match_plain c key : comp_match (lit c) key = beq c key.
+Proof. reflexivity. Qed.
 
 (* ------------------------------------------------------------------ sections, spelled with equality *)
 Definition secf (sec : bytes) (t : item) : list member :=
@@ -96,15 +122,14 @@ Lemma sec_members_unfold d sec : sec_members d sec = flat_map (secf sec) (d_item
 Proof. reflexivity. Qed.
 
 Lemma lookup_items_plain c1 c2 its :
-  has_wild c1 = false -> has_wild c2 = false ->
-  lookup_items c1 c2 its = option_map m_val (find (keyp c2) (flat_map (secf c1) its)).
+  lookup_items (lit c1) (lit c2) its = option_map m_val (find (keyp c2) (flat_map (secf c1) its)).
 Proof.
-  intros H1 H2. induction its as [|t r IH]; simpl; auto.
+  induction its as [|t r IH]; simpl; auto.
   unfold secf at 1. destruct (t_val t) as [ms ws|raw]; simpl; auto.
-  rewrite (comp_match_plain c1 _ H1). destruct (beq c1 (t_key t)); simpl; auto.
+  rewrite (comp_match_plain c1). destruct (beq c1 (t_key t)); simpl; auto.
   rewrite find_app. unfold find_member.
-  assert (E : find (fun m => comp_match c2 (m_key m)) ms = find (keyp c2) ms).
-  { apply find_ext_local. intros m _. apply comp_match_plain. exact H2. }
+  assert (E : find (fun m => comp_match (lit c2) (m_key m)) ms = find (keyp c2) ms).
+  { apply find_ext_local. intros m _. apply comp_match_plain. }
   rewrite E. destruct (find (keyp c2) ms); simpl; auto.
 Qed.
 
@@ -125,10 +150,10 @@ Lemma keyp_In_keys k ms m : In m ms -> keyp k m = true -> In k (map m_key ms).
 Proof. intros Hm Hk. unfold keyp in Hk. apply beq_eq in Hk. subst k. apply in_map. exact Hm. Qed.
 
 Lemma set_first_nodup k new ms :
-  has_wild k = false -> NoDup (map m_key ms) -> set_first k new ms = map (setk k new) ms.
+  NoDup (map m_key ms) -> set_first (lit k) new ms = map (setk k new) ms.
 Proof.
-  intros Hw. induction ms as [|m r IH]; simpl; auto. intros HN. inversion HN; subst.
-  rewrite (comp_match_plain k _ Hw). unfold setk at 1. unfold keyp at 1.
+  induction ms as [|m r IH]; simpl; auto. intros HN. inversion HN; subst.
+  rewrite (comp_match_plain k). unfold setk at 1. unfold keyp at 1.
   destruct (beq k (m_key m)) eqn:E.
   - f_equal. symmetry. apply setk_id_when_absent. intros m' Hm'.
     destruct (keyp k m') eqn:E'; auto. exfalso. apply H1.
@@ -143,22 +168,21 @@ Proof.
 Qed.
 
 Lemma set_in_items_nodup c1 c2 new its :
-  has_wild c1 = false -> has_wild c2 = false ->
   NoDup (map m_key (flat_map (secf c1) its)) ->
-  set_in_items c1 c2 new its = map (map_item c1 (setk c2 new)) its.
+  set_in_items (lit c1) (lit c2) new its = map (map_item c1 (setk c2 new)) its.
 Proof.
-  intros H1 H2. induction its as [|t r IH]; simpl; auto. intros HN.
+  induction its as [|t r IH]; simpl; auto. intros HN.
   rewrite map_app in HN.
   pose proof (NoDup_app_remove_l _ _ HN) as HNr.
   pose proof (NoDup_app_remove_r _ _ HN) as HNl.
   unfold map_item at 1. unfold secf at 1 in HN. unfold secf at 1 in HNl.
   destruct (t_val t) as [ms ws|raw] eqn:Et.
-  - rewrite (comp_match_plain c1 _ H1). destruct (beq c1 (t_key t)) eqn:Ek.
+  - rewrite (comp_match_plain c1). destruct (beq c1 (t_key t)) eqn:Ek.
     + unfold find_member.
-      assert (E : find (fun m => comp_match c2 (m_key m)) ms = find (keyp c2) ms).
-      { apply find_ext_local. intros m _. apply comp_match_plain. exact H2. }
+      assert (E : find (fun m => comp_match (lit c2) (m_key m)) ms = find (keyp c2) ms).
+      { apply find_ext_local. intros m _. apply comp_match_plain. }
       rewrite E. destruct (find (keyp c2) ms) as [m0|] eqn:Ef.
-      * rewrite (set_first_nodup c2 new ms H2 HNl). f_equal.
+      * rewrite (set_first_nodup c2 new ms HNl). f_equal.
         symmetry. apply map_id_on. intros t' Ht'. apply map_item_id. intros m Hm.
         unfold setk. destruct (keyp c2 m) eqn:Ekm; auto. exfalso.
         apply find_some in Ef as [Hin0 Hk0].
@@ -187,20 +211,17 @@ Definition sec_miss (d : doc) (sec k orig : bytes) : bool :=
 Definition sec_wf (d : doc) (sec : bytes) : Prop := NoDup (map m_key (sec_members d sec)).
 
 Lemma path_lookup_plain d sec k :
-  no_dot sec = true -> has_wild sec = false -> safe_name k = true ->
-  path_lookup d (dep_path sec k) = sec_get d sec k.
+  lit_comp sec = true -> path_lookup d (dep_path sec k) = sec_get d sec k.
 Proof.
-  intros H1 H2 H3. unfold safe_name in H3. apply andb_true_iff in H3 as [H3 H4]. apply negb_true_iff in H4.
-  unfold path_lookup. rewrite (split_dep_path sec k H1 H3).
-  rewrite (lookup_items_plain sec k _ H2 H4). reflexivity.
+  intros H1. unfold path_lookup. rewrite (parse_dep_path sec k H1).
+  rewrite (lookup_items_plain sec k). reflexivity.
 Qed.
 
 Lemma path_set_plain d sec k new :
-  no_dot sec = true -> has_wild sec = false -> safe_name k = true -> sec_wf d sec ->
+  lit_comp sec = true -> sec_wf d sec ->
   path_set d (dep_path sec k) new = map_sec d sec (setk k new).
 Proof.
-  intros H1 H2 H3 HW. unfold safe_name in H3. apply andb_true_iff in H3 as [H3 H4]. apply negb_true_iff in H4.
-  unfold path_set. rewrite (split_dep_path sec k H1 H3).
+  intros H1 HW. unfold path_set. rewrite (parse_dep_path sec k H1).
   unfold map_sec. f_equal. apply set_in_items_nodup; auto.
 Qed.
 
@@ -234,17 +255,17 @@ Proof.
 Qed.
 
 Lemma sec_step_char d sec k orig new matched :
-  no_dot sec = true -> has_wild sec = false -> safe_name k = true -> sec_wf d sec ->
+  lit_comp sec = true -> sec_wf d sec ->
   sec_step d sec k orig new matched =
   if sec_miss d sec k orig && negb matched then None
   else Some (map_sec d sec (gset k orig new), matched || sec_hit d sec k orig).
 Proof.
-  intros H1 H2 H3 HW. unfold sec_step, sec_miss, sec_hit.
-  rewrite (path_lookup_plain d sec k H1 H2 H3).
+  intros H1 HW. unfold sec_step, sec_miss, sec_hit.
+  rewrite (path_lookup_plain d sec k H1).
   unfold sec_get. destruct (find (fun m => beq k (m_key m)) (sec_members d sec)) as [m0|] eqn:Ef; simpl.
   - pose proof (find_unique_val k _ m0 HW Ef) as HU.
     destruct (beq (m_val m0) orig) eqn:Ev; simpl.
-    + rewrite (path_set_plain d sec k new H1 H2 H3 HW). rewrite orb_true_r. f_equal. f_equal.
+    + rewrite (path_set_plain d sec k new H1 HW). rewrite orb_true_r. f_equal. f_equal.
       apply map_sec_ext. intros m Hm. unfold setk, gset, keyp.
       destruct (beq k (m_key m)) eqn:Ek; simpl; auto.
       rewrite (HU m Hm Ek). rewrite beq_sym, Ev. reflexivity.
@@ -323,12 +344,9 @@ Lemma PROD_OPT : beq PROD OPT = false. Proof. reflexivity. Qed.
 Lemma spec_member_one u m : spec_member [u] m = gset (upd_key u) (upd_orig u) (upd_new u) m.
 Proof. unfold spec_member, gset, hits. simpl. destruct (_ && _); reflexivity. Qed.
 
-Lemma nd_DEV : no_dot DEV = true. Proof. reflexivity. Qed.
-Lemma nd_OPT : no_dot OPT = true. Proof. reflexivity. Qed.
-Lemma nd_PROD : no_dot PROD = true. Proof. reflexivity. Qed.
-Lemma nw_DEV : has_wild DEV = false. Proof. reflexivity. Qed.
-Lemma nw_OPT : has_wild OPT = false. Proof. reflexivity. Qed.
-Lemma nw_PROD : has_wild PROD = false. Proof. reflexivity. Qed.
+Lemma lc_DEV : lit_comp DEV = true. Proof. reflexivity. Qed.
+Lemma lc_OPT : lit_comp OPT = true. Proof. reflexivity. Qed.
+Lemma lc_PROD : lit_comp PROD = true. Proof. reflexivity. Qed.
 Local Opaque DEV OPT PROD.
 
 Lemma map_item_other sec g t : beq sec (t_key t) = false -> map_item sec g t = t.
@@ -385,20 +403,20 @@ Lemma sec_wf_map_sec d sec sec' g : (forall m, m_key (g m) = m_key m) -> sec_wf 
 Proof. intros Hg H. unfold sec_wf. rewrite (keys_map_sec d sec sec' g Hg). exact H. Qed.
 
 Lemma apply_one_exact d u :
-  wf_doc_prop d -> safe_name (upd_key u) = true -> addressed d u = true ->
+  wf_doc_prop d -> addressed d u = true ->
   apply_one d u = Some (spec_apply d [u]).
 Proof.
-  intros (W1 & W2 & W3) Hs Ha.
+  intros (W1 & W2 & W3) Ha.
   set (k := upd_key u) in *. set (o := upd_orig u). set (n := upd_new u).
   pose proof (gset_key k o n) as Hg.
   unfold apply_one. fold k o n.
-  rewrite (sec_step_char d DEV k o n false nd_DEV nw_DEV Hs W1).
+  rewrite (sec_step_char d DEV k o n false lc_DEV W1).
   unfold addressed, effective in Ha. fold k o in Ha.
   assert (M1 : sec_miss d DEV k o = false).
   { unfold sec_miss. destruct (sec_get d DEV k) as [v|]; auto. rewrite Ha. reflexivity. }
   rewrite M1. simpl.
   set (d1 := map_sec d DEV (gset k o n)).
-  rewrite (sec_step_char d1 OPT k o n _ nd_OPT nw_OPT Hs (sec_wf_map_sec d DEV OPT _ Hg W2)).
+  rewrite (sec_step_char d1 OPT k o n _ lc_OPT (sec_wf_map_sec d DEV OPT _ Hg W2)).
   assert (G2 : sec_get d1 OPT k = sec_get d OPT k) by (apply sec_get_other; auto).
   assert (M2 : sec_miss d1 OPT k o && negb (sec_hit d DEV k o) = false).
   { unfold sec_miss, sec_hit. rewrite G2. destruct (sec_get d DEV k) as [v|]; [rewrite Ha; apply andb_false_r|].
@@ -407,7 +425,7 @@ Proof.
   set (d2 := map_sec d1 OPT (gset k o n)).
   assert (W3' : sec_wf d2 PROD).
   { apply sec_wf_map_sec; auto. apply sec_wf_map_sec; auto. }
-  rewrite (sec_step_char d2 PROD k o n _ nd_PROD nw_PROD Hs W3').
+  rewrite (sec_step_char d2 PROD k o n _ lc_PROD W3').
   assert (G3 : sec_get d2 PROD k = sec_get d PROD k).
   { unfold d2. rewrite sec_get_other; auto. unfold d1. rewrite sec_get_other; auto. }
   assert (M3 : sec_miss d2 PROD k o && negb (sec_hit d DEV k o || sec_hit d1 OPT k o) = false).
@@ -457,7 +475,7 @@ Qed.
 
 Lemma write_pkgjson_exact ups : forall d,
   wf_doc d = true ->
-  forallb (fun u => safe_name (upd_key u) && addressed d u) ups = true ->
+  forallb (addressed d) ups = true ->
   distinct_keys ups = true ->
   write_pkgjson d ups = Some (spec_apply d ups).
 Proof.
@@ -465,21 +483,21 @@ Proof.
   - simpl. unfold spec_apply. simpl. rewrite map_id_on; [rewrite set_items_same; reflexivity|].
     intros t _. unfold spec_item. destruct (t_val t) as [ms ws|raw] eqn:Et; auto.
     destruct (mem (t_key t) SECS); auto. rewrite map_id_on; [apply set_tval_same; exact Et|]. reflexivity.
-  - simpl in HA. apply andb_true_iff in HA as [HA1 HA]. apply andb_true_iff in HA1 as [Hs Ha].
+  - simpl in HA. apply andb_true_iff in HA as [Ha HA].
     unfold distinct_keys in HD. simpl in HD. apply andb_true_iff in HD as [HD1 HD]. apply negb_true_iff in HD1.
     assert (Hdist : forall u', In u' r -> beq (upd_key u') (upd_key u) = false).
     { intros u' Hu'. destruct (beq (upd_key u') (upd_key u)) eqn:E; auto. exfalso.
       apply beq_eq in E. assert (mem (upd_key u) (map upd_key r) = true); [|congruence].
       apply mem_In. rewrite <- E. apply in_map. exact Hu'. }
     pose proof (proj1 (wf_doc_iff d) HW) as HWp.
-    cbn [write_pkgjson]. rewrite (apply_one_exact d u HWp Hs Ha).
+    cbn [write_pkgjson]. rewrite (apply_one_exact d u HWp Ha).
     rewrite IH.
     + rewrite spec_apply_compose; auto.
     + apply wf_doc_iff. destruct HWp as (W1 & W2 & W3).
       unfold wf_doc_prop, sec_wf. rewrite !spec_apply_one_map by (simpl; auto). rewrite !map_map.
       repeat split; (erewrite map_ext; [eassumption|]; intros m; apply gset_key).
     + apply forallb_forall. intros u' Hu'. rewrite forallb_forall in HA. specialize (HA u' Hu').
-      apply andb_true_iff in HA as [Hs' Ha']. rewrite Hs'. simpl.
+      rename HA into Ha'.
       unfold addressed, effective in *.
       rewrite <- three_sections.
       rewrite !sec_get_map_sec_other_key by (apply Hdist; exact Hu'). exact Ha'.
